@@ -1,7 +1,7 @@
 """Shared machinery of ./check: builds, translators, Coq, extraction, script running, verdict, evidence."""
 import os, sys, json, subprocess, time, hashlib, random, fcntl, re, shutil, glob
 
-V = '/verif'
+V = os.environ.get('VERIF_ROOT') or os.path.dirname(os.path.dirname(os.path.abspath(__file__)))
 REPO = os.environ.get('VERIF_REPO', '/repo')
 BUILD = os.path.join(V, 'build')
 ASAN = os.path.join(BUILD, 'asan')
